@@ -16,7 +16,25 @@ import tempfile
 ROOT = os.path.dirname(os.path.dirname(os.path.abspath(__file__)))
 C = 'fiddle/_src/config.py'
 # (file, old text, new text, contract id)
+R = 'fiddle/_src/reraised_exception.py'
 MUTANTS = [
+    (R, "return proxy_cls(exception, message).with_traceback(exception.__traceback__)",
+     "return proxy_cls(exception, '').with_traceback(exception.__traceback__)", 'reraised_exception.decorate_exception'),
+    (R, "    logging.exception('Creating the proxy class failed.')\n    return exception",
+     "    logging.exception('Creating the proxy class failed.')\n    raise", 'reraised_exception.decorate_exception'),
+    (R, "  try:\n    proxy_cls = make_exception_class(type(exception))",
+     "  if getattr(exception, 'proxy_message', None) is not None:\n    return exception\n  try:\n    proxy_cls = make_exception_class(type(exception))",
+     'reraised_exception.decorate_exception'),
+    (R, "    if not isinstance(exc, Exception):\n      return False", "    if not isinstance(exc, Exception):\n      return True",
+     'reraised_exception.try_with_lazy_message.__exit__'),
+    (R, "    if not isinstance(exc, Exception):", "    if exc is None:", 'reraised_exception.try_with_lazy_message.__exit__'),
+    (R, "raise decorate_exception(exc, message) from None", "raise decorate_exception(exc, '') from None",
+     'reraised_exception.try_with_lazy_message.__exit__'),
+    (R, "      logging.exception('Formatting the debug information failed.')\n      return False",
+     "      logging.exception('Formatting the debug information failed.')\n      return True",
+     'reraised_exception.try_with_lazy_message.__exit__'),
+    (R, "    raise decorate_exception(exc, message) from None", "    return False",
+     'reraised_exception.try_with_lazy_message.__exit__'),
     ('fiddle/_src/absl_flags/flags.py', 'self._remaining_directives.pop(0)', 'self._remaining_directives.pop()',
      'flags.FiddleFlag.value'),
     (C, "object.__setattr__(rebuilt, '__argument_tags__', metadata.tags())",
